@@ -24,7 +24,7 @@ ASSUMPTIONS = [
 ]
 SHARDS = {"quick": 1, "thorough": 16}
 OWN = "ANY-SCP"
-ALLOWED = ["ALPHA", "Beta Two", "GAMMA_LONG_TITLE1"]
+ALLOWED = ["ALPHA", "Beta Two", "GAMMA_LONG_TITLE"]
 
 
 def _field(s, lead):
